@@ -30,10 +30,8 @@ def run(prop, tier, cov):
             ('legacy: no re-test after a child returns', dict(base, abort='FALSE', budget=2), False, 2),
             ('legacy: no fallback move', dict(base, fallback='FALSE', budget=1), False, 2)]
     if tier == 'thorough':
-        runs.insert(1, ('all trees B=2 D=3 evals {0,1}, cache probes off, budgets 0..3 and none',
-                        dict(base, D=3, vals='Vals2', budget=3), True, 12))
-        runs.insert(2, ('all trees B=3 D=2 evals {0,1}, cache probes off, budgets 0..3 and none',
-                        dict(base, B=3, vals='Vals2', budget=3), True, 12))
+        runs.insert(1, ('all trees B=2 D=3 evals {0,1}, cache probes off, budgets 0..1 and none',
+                        dict(base, D=3, vals='Vals2', budget=1), True, 14))
     cov.setdefault('mc', {})
 
     def one(r):
@@ -41,10 +39,11 @@ def run(prop, tier, cov):
         res = model_check('MCSearch.tla', CFG % c, 'search-mc-%s-%d-%d' % (prop, os.getpid(), abs(hash(name)) % 10000),
                           workers=workers, timeout=6000)
         return r, res
-    # the big run first alone, the small ones together
-    results = [one(runs[0])]
+    # the big runs one after the other, the small ones together
+    nbig = 2 if tier == 'thorough' else 1
+    results = [one(r) for r in runs[:nbig]]
     with cf.ThreadPoolExecutor(max_workers=4) as ex:
-        results += list(ex.map(one, runs[1:]))
+        results += list(ex.map(one, runs[nbig:]))
     for (name, c, expect_ok, _), res in results:
         if expect_ok and not res['ok']:
             log(res['out'][-3000:])
